@@ -46,6 +46,10 @@ def _hook(name, args):
     th = threading.current_thread()
     if _after_thread[0] is not None and _after_thread[0] == th.ident and not name.startswith("sys."):
         _after_thread[0] = None          # os.kill raises an audit event itself
+        for k in list(_pending):         # the operation that just completed may have been the commit itself
+            if os.path.isdir(f"{D}/{k}"):
+                _pending.discard(k)
+                log("COMMITTED", k)
         log("KILL_AFTER", KILL_AFTER, name)
         os.kill(os.getpid(), signal.SIGKILL)
     if name not in WATCH:
